@@ -277,6 +277,8 @@ fn expected_outcome(frame: &[u8]) -> Outcome {
     match ref_reply::<OptParams, ErrA>(frame) {
         vcommon::rx::Expect::Exactly(o) => o,
         vcommon::rx::Expect::DecodeErrOr(o) => o,
+        // the scripted replies of this check are all JSON objects
+        vcommon::rx::Expect::NonObjectReply(o) => o.unwrap_or(Outcome::DecodeErr),
     }
 }
 
